@@ -450,17 +450,29 @@ func bubbleStacks() (string, []string) {
 // BlockedSummary lists, for every goroutine of the bubble that is executing
 // repository code, its wait reason and its innermost repository frames.
 func BlockedSummary() string {
+	// only goroutines of the CURRENT bubble: goroutines that an earlier run left parked in
+	// this process must not leak into this run's event log (its hash would depend on history)
+	own := make([]byte, 256)
+	own = own[:runtime.Stack(own, false)]
+	ownFirst, _, _ := strings.Cut(string(own), "\n")
+	filter := bubbleStackFilter
+	if i := strings.Index(ownFirst, bubbleStackFilter); i >= 0 {
+		filter = strings.TrimSuffix(strings.TrimSuffix(ownFirst[i:], ":"), "]") + "]"
+	}
 	buf := make([]byte, 1<<20)
 	n := runtime.Stack(buf, true)
 	out := []string{}
 	for _, b := range strings.Split(string(buf[:n]), "\n\n") {
 		first, _, _ := strings.Cut(b, "\n")
-		if !strings.Contains(first, bubbleStackFilter) {
+		if !strings.Contains(first, filter) {
 			continue
 		}
 		reason := first
 		if i := strings.Index(first, "["); i >= 0 {
 			reason = strings.TrimSuffix(first[i:], ":")
+		}
+		if i := strings.Index(reason, ", "+bubbleStackFilter); i >= 0 {
+			reason = reason[:i] + "]"
 		}
 		frames := []string{}
 		lines := strings.Split(b, "\n")
